@@ -15,6 +15,7 @@ import (
 	"flag"
 	"fmt"
 	"math/rand"
+	"net"
 	"os"
 	"path/filepath"
 	"runtime"
@@ -35,10 +36,13 @@ import (
 	"k8s.io/apimachinery/pkg/types"
 	"k8s.io/apimachinery/pkg/util/intstr"
 
+	"google.golang.org/grpc"
 	"gxverif/lockset"
 	"tkestack.io/galaxy/pkg/api/galaxy/constant"
 	"tkestack.io/galaxy/pkg/api/k8s"
 	"tkestack.io/galaxy/pkg/api/k8s/schedulerapi"
+	"tkestack.io/galaxy/pkg/ipam/cloudprovider"
+	"tkestack.io/galaxy/pkg/ipam/cloudprovider/rpc"
 )
 
 type summary struct {
@@ -464,6 +468,106 @@ func galaxyEntryPoints(seed int64) ([]*ep, func(), error) {
 	return eps, cleanup, nil
 }
 
+// ---------------------------------------------------------------- real cloud provider
+
+type ipProvider struct{}
+
+func (ipProvider) AssignIP(ctx context.Context, in *rpc.AssignIPRequest) (*rpc.AssignIPReply, error) {
+	return &rpc.AssignIPReply{Success: true}, nil
+}
+func (ipProvider) UnAssignIP(ctx context.Context, in *rpc.UnAssignIPRequest) (*rpc.UnAssignIPReply, error) {
+	return &rpc.UnAssignIPReply{Success: true}, nil
+}
+
+func count(name string, err error) {
+	mu.Lock()
+	ops[name]++
+	if err != nil {
+		errs[name]++
+	}
+	mu.Unlock()
+}
+
+// cloudPhase: the REAL grpcCloudProvider against a tiny in-process gRPC server.  The provider dials lazily on first use:
+// the interesting moment is the FIRST calls, so fresh providers / fresh plugins are used again and again, each time with
+// several goroutines released together (binds / unbinds of DIFFERENT pods hold only their own per-pod locks).
+func cloudPhase(seed int64, dur time.Duration) error {
+	lis, err := net.Listen("tcp", "127.0.0.1:0")
+	if err != nil {
+		return err
+	}
+	srv := grpc.NewServer()
+	rpc.RegisterIPProviderServiceServer(srv, ipProvider{})
+	go srv.Serve(lis)
+	defer srv.Stop()
+	addr := lis.Addr().String()
+	end := time.Now().Add(dur)
+	// (1) the provider object itself
+	for round := 0; round < 400 && time.Now().Before(end.Add(-dur/2)); round++ {
+		cp := cloudprovider.NewGRPCCloudProvider(addr)
+		start := make(chan struct{})
+		var wg sync.WaitGroup
+		for g := 0; g < 4; g++ {
+			wg.Add(1)
+			go func(g int) {
+				defer wg.Done()
+				<-start
+				if g%2 == 0 {
+					_, err := cp.AssignIP(&rpc.AssignIPRequest{NodeName: "node1", IPAddress: fmt.Sprintf("10.49.27.%d", 216+g)})
+					count("cloudAssign", err)
+				} else {
+					_, err := cp.UnAssignIP(&rpc.UnAssignIPRequest{NodeName: "node1", IPAddress: fmt.Sprintf("10.49.27.%d", 216+g)})
+					count("cloudUnAssign", err)
+				}
+			}(g)
+		}
+		close(start)
+		wg.Wait()
+	}
+	// (2) through the plugin: Bind / unbind / resync of different pods on a fresh galaxy-ipam instance
+	for inst := 0; time.Now().Before(end) && inst < 40; inst++ {
+		two := int32(8)
+		d, err := lockset.NewIpamdWith(lockset.DefaultPools, addr,
+			&appv1.StatefulSet{ObjectMeta: metav1.ObjectMeta{Name: "c", Namespace: "ns1"}, Spec: appv1.StatefulSetSpec{Replicas: &two}})
+		if err != nil {
+			return err
+		}
+		var pods []*corev1.Pod
+		for i := 0; i < 6; i++ {
+			p := mkPod(fmt.Sprintf("c-%d", i), "ns1", "StatefulSet", "c", fmt.Sprintf("uc%d", i), nil)
+			if i%2 == 1 {
+				p.Annotations = map[string]string{constant.ReleasePolicyAnnotation: constant.Immutable}
+			}
+			if err := d.AddPod(p); err != nil {
+				return err
+			}
+			pods = append(pods, p)
+		}
+		start := make(chan struct{})
+		var wg sync.WaitGroup
+		for i, p := range pods {
+			wg.Add(1)
+			go func(i int, p *corev1.Pod) {
+				defer wg.Done()
+				<-start
+				_, _, err := d.Plugin.Filter(p, d.Nodes)
+				if err == nil {
+					err = d.Plugin.Bind(&schedulerapi.ExtenderBindingArgs{PodName: p.Name, PodNamespace: p.Namespace, PodUID: p.UID, Node: "node1"})
+				}
+				count("cloudBind", err)
+				count("cloudUnbind", d.Plugin.VerifLsUnbind(p))
+				if i == 0 {
+					count("cloudResync", d.Plugin.VerifLsResyncPod())
+				}
+			}(i, p)
+		}
+		close(start)
+		wg.Wait()
+		d.Close()
+	}
+	return nil
+}
+
 // drive: phase 1 all pairs, phase 2 random mix
 func drive(eps []*ep, dur time.Duration, seed int64, maxG int) (pairs, total int) {
 	type pr struct{ a, b int }
@@ -609,6 +713,15 @@ func main() {
 			mk   func(int64) ([]*ep, func(), error)
 		}
 		ds := []daemon{{"ipam", ipamEntryPoints}, {"galaxy", galaxyEntryPoints}}
+		if *only == "" || *only == "cloud" {
+			cd := *dur / 5
+			if cd > 10*time.Second {
+				cd = 10 * time.Second
+			}
+			if err := cloudPhase(*seed, cd); err != nil {
+				s.Note += fmt.Sprintf("cloud provider phase: %v; ", err)
+			}
+		}
 		per := *dur / 2
 		for _, dm := range ds {
 			if *only != "" && *only != dm.name {
